@@ -240,6 +240,7 @@ class Executor(object):
                 t = f(*idx)
             else:
                 t = z3.Const(uid(name), BlobSort)
+                st.assume(self.B.blob_len(t) >= 0)
             return VBlob(t, self.B.blob_len(t))
         if k == 'tuple':
             return VSeq([self.fresh(st, a, '%s.%d' % (name, i), idx) for i, a in enumerate(ty.args)], kind='tuple')
